@@ -7,6 +7,7 @@
 package main
 
 import (
+	"bytes"
 	"context"
 	"encoding/hex"
 	"encoding/json"
@@ -25,6 +26,7 @@ import (
 	"sync"
 	"sync/atomic"
 
+	goagrpc "goa.design/goa/v3/grpc"
 	grpcmw "goa.design/goa/v3/grpc/middleware"
 	goahttp "goa.design/goa/v3/http"
 	httpmw "goa.design/goa/v3/http/middleware"
@@ -1031,14 +1033,16 @@ func genTrace(rng *vh.RNG, tier string) []TraceCase {
 // ================================================================ chains
 
 type Hop struct {
-	Kind      string `json:"kind"`
-	Opts      []TOpt `json:"opts"`
-	Path      string `json:"path"`
-	Seed      int64  `json:"seed"`
-	NewTrace  B      `json:"new_trace"`
-	NewSpan   B      `json:"new_span"`
-	OutTrace  []B    `json:"out_trace,omitempty"` // trace headers the handler put on its outgoing request itself
-	OutParent []B    `json:"out_parent,omitempty"`
+	Kind      string   `json:"kind"`
+	Opts      []TOpt   `json:"opts"`
+	Path      string   `json:"path"`
+	Seed      int64    `json:"seed"`
+	NewTrace  B        `json:"new_trace"`
+	NewSpan   B        `json:"new_span"`
+	OutTrace  []B      `json:"out_trace,omitempty"` // trace headers the handler put on its outgoing request itself
+	OutParent []B      `json:"out_parent,omitempty"`
+	Client    []string `json:"client,omitempty"` // client stack used to call the next hop, first = outermost (default: traced)
+	Shape     string   `json:"shape,omitempty"`  // HTTP request shape of that call
 }
 
 type ChainCase struct {
@@ -1092,51 +1096,7 @@ func runChain(c ChainCase) (o ChainObs) {
 				return
 			}
 			next := c.Hops[k+1]
-			switch next.Kind {
-			case "http":
-				req, _ := http.NewRequestWithContext(ctx, "GET", "http://next"+next.Path, nil)
-				if h.OutTrace != nil {
-					req.Header[hTrace] = bs(h.OutTrace)
-				}
-				if h.OutParent != nil {
-					req.Header[hParent] = bs(h.OutParent)
-				}
-				d := httpmw.WrapDoer(wireDoer(func(r *http.Request) (*http.Response, error) {
-					// the wire: only the headers travel, the next server starts from a fresh context
-					serve(k+1, r.Header[hTrace], r.Header[hParent])
-					return &http.Response{StatusCode: 200, Body: io.NopCloser(strings.NewReader(""))}, nil
-				}))
-				_, _ = d.Do(req)
-			default:
-				octx := ctx
-				if h.OutTrace != nil || h.OutParent != nil {
-					m := metadata.MD{}
-					if h.OutTrace != nil {
-						m[grpcmw.TraceIDMetadataKey] = bs(h.OutTrace)
-					}
-					if h.OutParent != nil {
-						m[grpcmw.ParentSpanIDMetadataKey] = bs(h.OutParent)
-					}
-					octx = metadata.NewOutgoingContext(ctx, m)
-				}
-				wire := func(c2 context.Context) {
-					m, _ := metadata.FromOutgoingContext(c2)
-					serve(k+1, m[grpcmw.TraceIDMetadataKey], m[grpcmw.ParentSpanIDMetadataKey])
-				}
-				if next.Kind == "unary" {
-					_ = grpcmw.UnaryClientTrace()(octx, next.Path, nil, nil, nil,
-						func(c2 context.Context, method string, req, reply any, cc *grpc.ClientConn, opts ...grpc.CallOption) error {
-							wire(c2)
-							return nil
-						})
-				} else {
-					_, _ = grpcmw.StreamClientTrace()(octx, &grpc.StreamDesc{}, nil, next.Path,
-						func(c2 context.Context, desc *grpc.StreamDesc, cc *grpc.ClientConn, method string, opts ...grpc.CallOption) (grpc.ClientStream, error) {
-							wire(c2)
-							return nil, nil
-						})
-				}
-			}
+			clientCall(ctx, next.Kind, next.Path, h.Client, h.Shape, h.OutTrace, h.OutParent, func(trace, parent []string) { serve(k+1, trace, parent) })
 		})
 	}
 	serve(0, bs(c.InTrace), bs(c.InParent))
@@ -1162,6 +1122,9 @@ func chainOracle(c ChainCase, o ChainObs, res *vh.Result) {
 	t := *o.Hops[0].Ctx.Trace
 	spans := map[B]int{}
 	for k, h := range o.Hops {
+		if k > 0 && !hasTraced(c.Hops[k-1].Client) {
+			return // the caller did not use the traced client: nothing had to be forwarded
+		}
 		if h.Ctx.Trace == nil || *h.Ctx.Trace != t {
 			fail("chain-trace-not-shared", fmt.Sprintf("server %d runs under trace %q, the chain started under %q", k, deref(h.Ctx.Trace), t))
 			return
@@ -1204,7 +1167,7 @@ func coqChain(i int, c ChainCase, o ChainObs) string {
 			ms, draw = o.Hops[k].Matches, o.Hops[k].Draw
 		}
 		q := TReq{Path: h.Path, NewTrace: h.NewTrace, NewSpan: h.NewSpan}
-		hs[k] = fmt.Sprintf("mkh %s %s %s (%s, %s)", ckind(h.Kind), coqTOpts(h.Opts), coqReq(q, h.Kind, ms, draw), clist(bs(h.OutTrace)), clist(bs(h.OutParent)))
+		hs[k] = fmt.Sprintf("mkh %s %s %s (%s, %s) %s", ckind(h.Kind), coqTOpts(h.Opts), coqReq(q, h.Kind, ms, draw), clist(bs(h.OutTrace)), clist(bs(h.OutParent)), coqClient(h.Client))
 	}
 	os := make([]string, len(o.Hops))
 	for k, h := range o.Hops {
@@ -1237,6 +1200,15 @@ func genChains(rng *vh.RNG, tier string) []ChainCase {
 			}
 			c.Hops = append(c.Hops, h)
 		}
+		for k := 0; k+1 < depth; k++ {
+			c.Hops[k].Client, c.Hops[k].Shape = pickClient(rng, c.Hops[k+1].Kind)
+			if !always && rng.Chance(1, 40) {
+				c.Hops[k].Client = []string{"debug"}[:boolInt(c.Hops[k+1].Kind == "http")] // no traced client at all (gRPC: nothing)
+				if len(c.Hops[k].Client) == 0 {
+					c.Hops[k].Client = []string{"plain"}
+				}
+			}
+		}
 		if !always && rng.Chance(1, 4) {
 			c.InTrace = []B{"tid-from-outside"}
 			if rng.Bool() {
@@ -1256,11 +1228,40 @@ func genChains(rng *vh.RNG, tier string) []ChainCase {
 		cases = append(cases, mk(idx, d, func(k int) string { return kinds[k%3] }, true))
 		idx++
 	}
+	// corpus: every client stack x every request shape (HTTP) / every client stack (gRPC), three services deep
+	for _, st := range clientStacks["http"] {
+		for _, sh := range httpShapes {
+			c := mk(idx, 3, func(int) string { return "http" }, true)
+			for k := 0; k < 2; k++ {
+				c.Hops[k].Client, c.Hops[k].Shape = st, sh
+			}
+			cases = append(cases, c)
+			idx++
+		}
+	}
+	for _, gk := range []string{"unary", "stream"} {
+		gk := gk
+		for _, st := range clientStacks["grpc"] {
+			c := mk(idx, 3, func(int) string { return gk }, true)
+			for k := 0; k < 2; k++ {
+				c.Hops[k].Client = st
+			}
+			cases = append(cases, c)
+			idx++
+		}
+	}
 	for ; idx < n; idx++ {
 		d := 1 + rng.Intn(maxDepth)
 		cases = append(cases, mk(idx, d, func(int) string { return vh.Pick(rng, kinds) }, rng.Chance(1, 3)))
 	}
 	return cases
+}
+
+func boolInt(b bool) int {
+	if b {
+		return 1
+	}
+	return 0
 }
 
 // ================================================================ capture
@@ -1545,18 +1546,20 @@ type Layer struct {
 }
 
 type StackCase struct {
-	Stream   string  `json:"stream"`
-	Kind     string  `json:"kind"`
-	Layers   []Layer `json:"layers"`
-	Headers  []HV    `json:"headers,omitempty"`
-	Trace    []B     `json:"trace,omitempty"`
-	Parent   []B     `json:"parent,omitempty"`
-	Path     string  `json:"path"`
-	Seed     int64   `json:"seed"`
-	NewTrace B       `json:"new_trace"`
-	NewSpan  B       `json:"new_span"`
-	Next     string  `json:"next"` // transport of the downstream call made from the handler
-	Wrap     bool    `json:"wrap,omitempty"`
+	Stream   string   `json:"stream"`
+	Kind     string   `json:"kind"`
+	Layers   []Layer  `json:"layers"`
+	Headers  []HV     `json:"headers,omitempty"`
+	Trace    []B      `json:"trace,omitempty"`
+	Parent   []B      `json:"parent,omitempty"`
+	Path     string   `json:"path"`
+	Seed     int64    `json:"seed"`
+	NewTrace B        `json:"new_trace"`
+	NewSpan  B        `json:"new_span"`
+	Next     string   `json:"next"` // transport of the downstream call made from the handler
+	Wrap     bool     `json:"wrap,omitempty"`
+	Client   []string `json:"client,omitempty"` // client stack of that call, first = outermost (default: traced)
+	Shape    string   `json:"shape,omitempty"`  // HTTP request shape of that call
 }
 
 type StackObs struct {
@@ -1596,32 +1599,202 @@ func chainStream(ics []grpc.StreamServerInterceptor, info *grpc.StreamServerInfo
 	return h
 }
 
-// callDownstream calls the next service from inside a handler through the traced
-// client of the given transport and reports the trace headers that arrive there.
-func callDownstream(ctx context.Context, next, path string) (trace, parent []string) {
-	switch next {
+// ---- client stacks: how a handler calls the next service
+
+// The traced client is composed, in any order (first = outermost), with the
+// wrappers goa itself puts between a caller's context and the wire, which have to
+// be transparent for the context and the trace headers: goahttp.NewDebugDoer (the
+// generated CLI wraps the client in it with -debug), goagrpc.NewInvoker (every
+// generated gRPC client method goes through it), and a user interceptor that adds
+// unrelated outgoing metadata.
+var clientStacks = map[string][][]string{
+	"http": {{"traced"}, {"debug", "traced"}, {"traced", "debug"}, {"debug", "traced", "debug"}, {"debug", "debug", "traced"}, {"traced", "traced"}},
+	"grpc": {{"traced"}, {"plain", "traced"}, {"traced", "plain"}, {"invoker", "traced"}, {"invoker", "plain", "traced"}, {"invoker", "traced", "plain"}},
+}
+
+// request shapes of an HTTP call: method and the way the body is given
+var httpShapes = []string{"get", "post-bytes", "put-string", "post-nobody", "patch-reader", "delete-empty"}
+
+type onlyReader struct{ r io.Reader }
+
+func (o onlyReader) Read(b []byte) (int, error) { return o.r.Read(b) }
+
+func shapeRequest(ctx context.Context, shape, url string) *http.Request {
+	var req *http.Request
+	switch shape {
+	case "post-bytes":
+		req, _ = http.NewRequestWithContext(ctx, "POST", url, bytes.NewReader([]byte(`{"from":"caller"}`)))
+	case "put-string":
+		req, _ = http.NewRequestWithContext(ctx, "PUT", url, strings.NewReader("payload"))
+	case "post-nobody":
+		req, _ = http.NewRequestWithContext(ctx, "POST", url, http.NoBody)
+	case "patch-reader":
+		req, _ = http.NewRequestWithContext(ctx, "PATCH", url, onlyReader{strings.NewReader("streamed body of unknown length")})
+	case "delete-empty":
+		req, _ = http.NewRequestWithContext(ctx, "DELETE", url, strings.NewReader(""))
+	default:
+		req, _ = http.NewRequestWithContext(ctx, "GET", url, nil)
+	}
+	return req
+}
+
+var devNull, _ = os.OpenFile(os.DevNull, os.O_WRONLY, 0)
+
+// clientCall calls the next service (transport kind) from inside a handler with the
+// handler's context through the given client stack and hands the trace headers /
+// metadata that reach the wire to wire. outTrace / outParent are trace headers the
+// handler had already put on the outgoing request itself.
+func clientCall(ctx context.Context, kind, path string, layers []string, shape string, outTrace, outParent []B, wire func(trace, parent []string)) {
+	if len(layers) == 0 {
+		layers = []string{"traced"}
+	}
+	switch kind {
 	case "http":
-		req, _ := http.NewRequestWithContext(ctx, "GET", "http://next"+path, nil)
-		_, _ = httpmw.WrapDoer(wireDoer(func(r *http.Request) (*http.Response, error) {
-			trace, parent = r.Header[hTrace], r.Header[hParent]
-			return &http.Response{StatusCode: 200, Body: io.NopCloser(strings.NewReader(""))}, nil
-		})).Do(req)
-	case "unary":
-		_ = grpcmw.UnaryClientTrace()(ctx, path, nil, nil, nil,
-			func(c2 context.Context, method string, req, reply any, cc *grpc.ClientConn, opts ...grpc.CallOption) error {
-				m, _ := metadata.FromOutgoingContext(c2)
-				trace, parent = m[grpcmw.TraceIDMetadataKey], m[grpcmw.ParentSpanIDMetadataKey]
+		var d httpmw.Doer = wireDoer(func(r *http.Request) (*http.Response, error) {
+			// the wire: only the headers travel, the next server starts from a fresh context
+			if r.Body != nil {
+				_, _ = io.Copy(io.Discard, r.Body)
+			}
+			wire(r.Header[hTrace], r.Header[hParent])
+			return &http.Response{StatusCode: 200, Header: http.Header{}, Body: io.NopCloser(strings.NewReader("ok"))}, nil
+		})
+		for i := len(layers) - 1; i >= 0; i-- {
+			switch layers[i] {
+			case "traced":
+				d = httpmw.WrapDoer(d)
+			case "debug":
+				d = goahttp.NewDebugDoer(d)
+			default:
+				panic("http client layer " + layers[i])
+			}
+		}
+		req := shapeRequest(ctx, shape, "http://next"+path)
+		if outTrace != nil {
+			req.Header[hTrace] = bs(outTrace)
+		}
+		if outParent != nil {
+			req.Header[hParent] = bs(outParent)
+		}
+		saved := os.Stderr
+		os.Stderr = devNull // the debug doer dumps every exchange on os.Stderr
+		resp, err := d.Do(req)
+		os.Stderr = saved
+		if err == nil && resp != nil && resp.Body != nil {
+			resp.Body.Close()
+		}
+	default:
+		octx := ctx
+		if outTrace != nil || outParent != nil {
+			m := metadata.MD{}
+			if outTrace != nil {
+				m[grpcmw.TraceIDMetadataKey] = bs(outTrace)
+			}
+			if outParent != nil {
+				m[grpcmw.ParentSpanIDMetadataKey] = bs(outParent)
+			}
+			octx = metadata.NewOutgoingContext(ctx, m)
+		}
+		onWire := func(c2 context.Context) {
+			m, _ := metadata.FromOutgoingContext(c2)
+			wire(m[grpcmw.TraceIDMetadataKey], m[grpcmw.ParentSpanIDMetadataKey])
+		}
+		useInvoker := false
+		if layers[0] == "invoker" {
+			useInvoker, layers = true, layers[1:]
+		}
+		var call func(ctx context.Context) error
+		if kind == "unary" {
+			inv := grpc.UnaryInvoker(func(c2 context.Context, method string, req, reply any, cc *grpc.ClientConn, opts ...grpc.CallOption) error {
+				onWire(c2)
 				return nil
 			})
-	default:
-		_, _ = grpcmw.StreamClientTrace()(ctx, &grpc.StreamDesc{}, nil, path,
-			func(c2 context.Context, desc *grpc.StreamDesc, cc *grpc.ClientConn, method string, opts ...grpc.CallOption) (grpc.ClientStream, error) {
-				m, _ := metadata.FromOutgoingContext(c2)
-				trace, parent = m[grpcmw.TraceIDMetadataKey], m[grpcmw.ParentSpanIDMetadataKey]
+			for i := len(layers) - 1; i >= 0; i-- {
+				var ic grpc.UnaryClientInterceptor
+				switch layers[i] {
+				case "traced":
+					ic = grpcmw.UnaryClientTrace()
+				case "plain":
+					ic = func(c2 context.Context, method string, req, reply any, cc *grpc.ClientConn, invoker grpc.UnaryInvoker, opts ...grpc.CallOption) error {
+						return invoker(metadata.AppendToOutgoingContext(c2, "x-user-interceptor", "1"), method, req, reply, cc, opts...)
+					}
+				default:
+					panic("grpc client layer " + layers[i])
+				}
+				next := inv
+				inv = func(c2 context.Context, method string, req, reply any, cc *grpc.ClientConn, opts ...grpc.CallOption) error {
+					return ic(c2, method, req, reply, cc, next, opts...)
+				}
+			}
+			call = func(c2 context.Context) error { return inv(c2, path, nil, nil, nil) }
+		} else {
+			str := grpc.Streamer(func(c2 context.Context, desc *grpc.StreamDesc, cc *grpc.ClientConn, method string, opts ...grpc.CallOption) (grpc.ClientStream, error) {
+				onWire(c2)
 				return nil, nil
 			})
+			for i := len(layers) - 1; i >= 0; i-- {
+				var ic grpc.StreamClientInterceptor
+				switch layers[i] {
+				case "traced":
+					ic = grpcmw.StreamClientTrace()
+				case "plain":
+					ic = func(c2 context.Context, desc *grpc.StreamDesc, cc *grpc.ClientConn, method string, streamer grpc.Streamer, opts ...grpc.CallOption) (grpc.ClientStream, error) {
+						return streamer(metadata.AppendToOutgoingContext(c2, "x-user-interceptor", "1"), desc, cc, method, opts...)
+					}
+				default:
+					panic("grpc client layer " + layers[i])
+				}
+				next := str
+				str = func(c2 context.Context, desc *grpc.StreamDesc, cc *grpc.ClientConn, method string, opts ...grpc.CallOption) (grpc.ClientStream, error) {
+					return ic(c2, desc, cc, method, next, opts...)
+				}
+			}
+			call = func(c2 context.Context) error { _, err := str(c2, &grpc.StreamDesc{}, nil, path); return err }
+		}
+		if useInvoker {
+			// the way every generated gRPC client method calls: through goagrpc.NewInvoker
+			enc := func(c2 context.Context, v any, md *metadata.MD) (any, error) {
+				md.Set("x-encoded-by", "request-encoder")
+				return v, nil
+			}
+			_, _ = goagrpc.NewInvoker(func(c2 context.Context, reqpb any, opts ...grpc.CallOption) (any, error) { return nil, call(c2) }, enc, nil).Invoke(octx, nil)
+		} else {
+			_ = call(octx)
+		}
 	}
-	return
+}
+
+func hasTraced(layers []string) bool {
+	if len(layers) == 0 {
+		return true
+	}
+	for _, l := range layers {
+		if l == "traced" {
+			return true
+		}
+	}
+	return false
+}
+
+func coqClient(layers []string) string {
+	if len(layers) == 0 {
+		layers = []string{"traced"}
+	}
+	ss := make([]string, len(layers))
+	for i, l := range layers {
+		if l == "traced" {
+			ss[i] = "CTraced"
+		} else {
+			ss[i] = "CTransparent"
+		}
+	}
+	return "[" + strings.Join(ss, "; ") + "]"
+}
+
+func pickClient(rng *vh.RNG, nextKind string) ([]string, string) {
+	if nextKind == "http" {
+		return vh.Pick(rng, clientStacks["http"]), vh.Pick(rng, httpShapes)
+	}
+	return vh.Pick(rng, clientStacks["grpc"]), ""
 }
 
 func runStack(c StackCase) (o StackObs) {
@@ -1644,8 +1817,9 @@ func runStack(c StackCase) (o StackObs) {
 			o.MD = toB(append([]string{}, md[grpcmw.RequestIDMetadataKey]...))
 		}
 		o.Ctx = readCtx(ctx)
-		t, p := callDownstream(ctx, c.Next, "/svc.Next/Call")
-		o.FwdTrace, o.FwdParent, o.Fwd = toB(t), toB(p), true
+		clientCall(ctx, c.Next, "/svc.Next/Call", c.Client, c.Shape, nil, nil, func(t, p []string) {
+			o.FwdTrace, o.FwdParent, o.Fwd = toB(t), toB(p), true
+		})
 	}
 	var hs []func(http.Handler) http.Handler
 	var us []grpc.UnaryServerInterceptor
@@ -1800,9 +1974,11 @@ func stackOracle(c StackCase, o StackObs, res *vh.Result) {
 					order, inT, inP, deref(o.Ctx.Trace), deref(o.Ctx.Span), deref(o.Ctx.Parent), c.NewSpan))
 				break
 			}
-			if !o.Fwd || len(o.FwdTrace) != 1 || string(o.FwdTrace[0]) != inT || len(o.FwdParent) != 1 || o.FwdParent[0] != c.NewSpan {
-				fail("stack-client-did-not-forward", fmt.Sprintf("stack %s: traced %s client called from the handler forwarded trace %q parent %q, expected %q / %q",
-					order, c.Next, bs(o.FwdTrace), bs(o.FwdParent), inT, c.NewSpan))
+			if !o.Fwd {
+				fail("stack-client-did-not-forward", fmt.Sprintf("stack %s: the %s call made from the handler through client stack %v never reached the wire", order, c.Next, c.Client))
+			} else if hasTraced(c.Client) && (len(o.FwdTrace) != 1 || string(o.FwdTrace[0]) != inT || len(o.FwdParent) != 1 || o.FwdParent[0] != c.NewSpan) {
+				fail("stack-client-did-not-forward", fmt.Sprintf("stack %s: %s client stack %v (request %q) called from the handler forwarded trace %q parent %q, expected %q / %q",
+					order, c.Next, c.Client, c.Shape, bs(o.FwdTrace), bs(o.FwdParent), inT, c.NewSpan))
 			}
 		}
 	}
@@ -1839,7 +2015,7 @@ func coqStack(i int, c StackCase, o StackObs) string {
 	if o.Fwd {
 		fwd = fmt.Sprintf("(Some (%s, %s))", clist(bs(o.FwdTrace)), clist(bs(o.FwdParent)))
 	}
-	return fmt.Sprintf("(%d, %s, [%s], %s, (%s, %s, %s, %s))", i, ckind(c.Kind), strings.Join(ls, "; "), coqHeaders(c.Headers),
+	return fmt.Sprintf("(%d, %s, [%s], %s, %s, (%s, %s, %s, %s))", i, ckind(c.Kind), strings.Join(ls, "; "), coqHeaders(c.Headers), coqClient(c.Client),
 		rid, clist(bs(o.MD)), coqCtx(o.Ctx), fwd)
 }
 
@@ -1863,6 +2039,7 @@ func genStacks(rng *vh.RNG, tier string) []StackCase {
 	mk := func(kind string, order []string, idx int) StackCase {
 		c := StackCase{Stream: "stack", Kind: kind, Path: vh.Pick(rng, tracePaths), Seed: int64(rng.Next() >> 1),
 			NewTrace: B(fmt.Sprintf("Tk%d", idx)), NewSpan: B(fmt.Sprintf("Sk%d", idx)), Next: vh.Pick(rng, kinds), Wrap: rng.Bool()}
+		c.Client, c.Shape = pickClient(rng, c.Next)
 		for _, k := range order {
 			l := Layer{K: k}
 			switch k {
@@ -2653,7 +2830,7 @@ func main() {
 
 	res.Evaluations = evals
 	res.Distinct = len(distinct)
-	res.Rule = "request id: kinds {http, grpc unary, grpc stream} x option lists (use on/off, header names incl. case variants and the empty name, limits 0, negative, 1, len-1, len, len+1, huge; later options override earlier ones) x inbound values (absent, empty, short, long, multi-byte, invalid UTF-8, several values, first value empty) x optional id already in the context, every case run twice; trace: sequences of 1-5 requests through one middleware instance (sampling 0..100, default, adaptive below its sample size, 0-4 discard patterns with inline flags, anchors and top-level alternations, paths in case variants, inbound trace / parent headers absent, empty, single, multiple, stale context values, nil URL), math/rand reseeded per request so the draw is known; chains: depth 1-4 (thorough 1-8) of servers of random transports calling the next through WrapDoer / UnaryClientTrace / StreamClientTrace; stacks: the middleware chain composed as servers compose it (http nesting; grpc ChainUnaryInterceptor/ChainStreamInterceptor order) with request-id, trace and every transparent layer (Log, LogContext, Debug, PopulateRequestContext, RequestContextKeyVals, SmartRedirectSlashes, StreamCanceler) in every position, the handler reading its context and calling downstream through the traced client; capture: writer histories over WriteHeader/Write/Flush/io.Copy/io.WriteString/ResponseController.Flush in any order (repeated and late WriteHeader calls, Flush first) against httptest.ResponseRecorder (with short writes) and a real net/http server; fixed sampler: every percentage 0..100 x every draw 0..99 run on the real sampler (exhaustive; the quick tier compares the rows around r = p, the extreme draws and percentages 0, 1, 50, 99, 100 with the model, the thorough tier all of them); sampling loops: 0 %, 100 % and default over n requests per transport; log: request-id middleware -> Log middleware -> handler playing a writer history (direct oracle only); concurrent: 16 goroutines x 750 requests with distinct ids through one middleware instance per transport, and 16 goroutines released by a barrier x 800 requests x 3 transports without inbound ids whose generated request, trace and span ids (115 200) must be non-empty, differ from the inbound value and be pairwise distinct (direct oracle only). Non-trivial = request-id case with a non-empty inbound value or context id; trace sequence with an inbound trace id, a sampler draw or more than one request; chain of depth >= 2 whose first server is traced; history with at least two events; stack of at least three layers; distinct = distinct inputs among those"
+	res.Rule = "request id: kinds {http, grpc unary, grpc stream} x option lists (use on/off, header names incl. case variants and the empty name, limits 0, negative, 1, len-1, len, len+1, huge; later options override earlier ones) x inbound values (absent, empty, short, long, multi-byte, invalid UTF-8, several values, first value empty) x optional id already in the context, every case run twice; trace: sequences of 1-5 requests through one middleware instance (sampling 0..100, default, adaptive below its sample size, 0-4 discard patterns with inline flags, anchors and top-level alternations, paths in case variants, inbound trace / parent headers absent, empty, single, multiple, stale context values, nil URL), math/rand reseeded per request so the draw is known; chains: depth 1-4 (thorough 1-8) of servers of random transports calling the next through a client stack (WrapDoer / UnaryClientTrace / StreamClientTrace composed in every order with goahttp.NewDebugDoer, goagrpc.NewInvoker and a user interceptor; HTTP requests GET/POST/PUT/PATCH/DELETE with bytes, string, NoBody, plain-reader and empty bodies); stacks: the middleware chain composed as servers compose it (http nesting; grpc ChainUnaryInterceptor/ChainStreamInterceptor order) with request-id, trace and every transparent layer (Log, LogContext, Debug, PopulateRequestContext, RequestContextKeyVals, SmartRedirectSlashes, StreamCanceler) in every position, the handler reading its context and calling downstream through the traced client; capture: writer histories over WriteHeader/Write/Flush/io.Copy/io.WriteString/ResponseController.Flush in any order (repeated and late WriteHeader calls, Flush first) against httptest.ResponseRecorder (with short writes) and a real net/http server; fixed sampler: every percentage 0..100 x every draw 0..99 run on the real sampler (exhaustive; the quick tier compares the rows around r = p, the extreme draws and percentages 0, 1, 50, 99, 100 with the model, the thorough tier all of them); sampling loops: 0 %, 100 % and default over n requests per transport; log: request-id middleware -> Log middleware -> handler playing a writer history (direct oracle only); concurrent: 16 goroutines x 750 requests with distinct ids through one middleware instance per transport, and 16 goroutines released by a barrier x 800 requests x 3 transports without inbound ids whose generated request, trace and span ids (115 200) must be non-empty, differ from the inbound value and be pairwise distinct (direct oracle only). Non-trivial = request-id case with a non-empty inbound value or context id; trace sequence with an inbound trace id, a sampler draw or more than one request; chain of depth >= 2 whose first server is traced; history with at least two events; stack of at least three layers; distinct = distinct inputs among those"
 	res.Extra["streams"] = map[string]int{"rid": len(rids), "trace": len(traces), "chain": len(chains), "capture": len(captures), "stack": len(stacks)}
 	b, _ := json.Marshal(cases)
 	if err := os.WriteFile(filepath.Join(*out, "cases.json"), b, 0o644); err != nil {
